@@ -356,7 +356,7 @@ def decide_unit(reg, idx, c, timeout_ms=None, seed=0, scope=3):
     und = {d["name"] for _, d in pairs if d["status"] == "undecided"}
     if und:
         try:
-            apply_found(refute_finite(reg, idx, c, und, scope=scope, seed=seed))
+            apply_found(refute_finite(reg, idx, c, und, scope=scope, seed=seed, timeout_ms=max(20000, timeout_ms or 20000)))
         except Exception as e:
             r.notes.append("finite refutation search failed: " + repr(e)[:200])
     return r
